@@ -16,7 +16,7 @@ package jet
 //@   requires r != nil && 0 <= r.i && r.i <= RvLen(r.v)
 //@   modifies r.i
 //@   ensures [one-element-per-call-in-order] ite(old(r.i) == RvLen(r.v), end && r.i == old(r.i), !end && index == RvOf(iface(old(r.i), "int")) && value == RvIndex(r.v, old(r.i)) && r.i == old(r.i) + 1)
-//@   ensures [no-view-of-the-cursor] {C07} !RvIsView(index) && (RvIsView(value) ==> RvIsView(r.v))
+//@   ensures [no-view-of-the-cursor] {C07,C11,C10} !RvIsView(index) && (RvIsView(value) ==> RvIsView(r.v))
 
 //@ func (*sliceRanger).ProvidesIndex
 //@   props C05
